@@ -53,8 +53,8 @@ Inductive task :=
 | TRWs (c : cid) (t : timer)
 | TRJoinW
 | TWriteStart
-| TWGet (t : timer)
-| TWPost (h : hid) (t : timer) (n : nat)
+| TWGet (t : timer) (ep : N)
+| TWPost (h : hid) (t : timer) (n : nat) (ep : N)
 | TDJoin (k : djoin)
 | THMsg (m : N) (a : hact)
 | TWait (call : N).
@@ -71,7 +71,8 @@ Record st := {
   ws : option cid; read_task : option tid; write_task : option tid;
   conns : list (cid * wsrec); https : list (hid * hrec);
   wsconn_result : list (cid * bool);         (* answers to connection attempts: true = accepted *)
-  tasks : list (tid * tentry); runq : list tid }.
+  tasks : list (tid * tentry); runq : list tid;
+  qepoch : N                                 (* identity of the send queue: connect() creates a new one *) }.
 
 Fixpoint alookup {A} (k : N) (l : list (N * A)) : option A :=
   match l with [] => None | (k', v) :: r => if N.eqb k k' then Some v else alookup k r end.
@@ -93,9 +94,10 @@ Definition modst (f : st -> st) : M unit := fun s => (tt, f s, []).
 
 (* record update helpers (one per field that changes) *)
 Definition upd_core (s : st) now' tseq' ntid' nhid' ncid' state' sid' tr' q' g' i' t' u' trs' ws' rd' wr' conns' https' wres' tasks' runq' : st :=
+  let ep := qepoch s in
   {| now := now'; tseq := tseq'; ntid := ntid'; nhid := nhid'; ncid := ncid'; state := state'; sid_set := sid'; transport := tr';
      queue := q'; getter := g'; interval := i'; ptimeout := t'; upgrades_ws := u'; transports := trs'; ws := ws'; read_task := rd';
-     write_task := wr'; conns := conns'; https := https'; wsconn_result := wres'; tasks := tasks'; runq := runq' |}.
+     write_task := wr'; conns := conns'; https := https'; wsconn_result := wres'; tasks := tasks'; runq := runq'; qepoch := ep |}.
 Definition set_now v s := upd_core s v (tseq s) (ntid s) (nhid s) (ncid s) (state s) (sid_set s) (transport s) (queue s) (getter s) (interval s) (ptimeout s) (upgrades_ws s) (transports s) (ws s) (read_task s) (write_task s) (conns s) (https s) (wsconn_result s) (tasks s) (runq s).
 Definition set_tseq v s := upd_core s (now s) v (ntid s) (nhid s) (ncid s) (state s) (sid_set s) (transport s) (queue s) (getter s) (interval s) (ptimeout s) (upgrades_ws s) (transports s) (ws s) (read_task s) (write_task s) (conns s) (https s) (wsconn_result s) (tasks s) (runq s).
 Definition set_ntid v s := upd_core s (now s) (tseq s) v (nhid s) (ncid s) (state s) (sid_set s) (transport s) (queue s) (getter s) (interval s) (ptimeout s) (upgrades_ws s) (transports s) (ws s) (read_task s) (write_task s) (conns s) (https s) (wsconn_result s) (tasks s) (runq s).
@@ -115,6 +117,11 @@ Definition set_conns v s := upd_core s (now s) (tseq s) (ntid s) (nhid s) (ncid 
 Definition set_https v s := upd_core s (now s) (tseq s) (ntid s) (nhid s) (ncid s) (state s) (sid_set s) (transport s) (queue s) (getter s) (interval s) (ptimeout s) (upgrades_ws s) (transports s) (ws s) (read_task s) (write_task s) (conns s) v (wsconn_result s) (tasks s) (runq s).
 Definition set_wres v s := upd_core s (now s) (tseq s) (ntid s) (nhid s) (ncid s) (state s) (sid_set s) (transport s) (queue s) (getter s) (interval s) (ptimeout s) (upgrades_ws s) (transports s) (ws s) (read_task s) (write_task s) (conns s) (https s) v (tasks s) (runq s).
 Definition set_tasks v s := upd_core s (now s) (tseq s) (ntid s) (nhid s) (ncid s) (state s) (sid_set s) (transport s) (queue s) (getter s) (interval s) (ptimeout s) (upgrades_ws s) (transports s) (ws s) (read_task s) (write_task s) (conns s) (https s) (wsconn_result s) v (runq s).
+Definition bump_epoch (s : st) : st :=
+  {| now := now s; tseq := tseq s; ntid := ntid s; nhid := nhid s; ncid := ncid s; state := state s; sid_set := sid_set s; transport := transport s;
+     queue := queue s; getter := getter s; interval := interval s; ptimeout := ptimeout s; upgrades_ws := upgrades_ws s; transports := transports s; ws := ws s;
+     read_task := read_task s; write_task := write_task s; conns := conns s; https := https s; wsconn_result := wsconn_result s; tasks := tasks s; runq := runq s;
+     qepoch := N.succ (qepoch s) |}.
 Definition set_runq v s := upd_core s (now s) (tseq s) (ntid s) (nhid s) (ncid s) (state s) (sid_set s) (transport s) (queue s) (getter s) (interval s) (ptimeout s) (upgrades_ws s) (transports s) (ws s) (read_task s) (write_task s) (conns s) (https s) (wsconn_result s) (tasks s) v.
 
 (* ---- scheduler ---- *)
@@ -287,17 +294,18 @@ Fixpoint ws_send_all (c : cid) (l : list ck) : M bool :=
 
 (* the write loop.  `top` = at the head of `while self.state == 'connected'`; otherwise the blocking get has just returned
    (or timed out) and the batch is processed whatever the state has become meanwhile *)
-Fixpoint write_loop (fuel : nat) (me : tid) (top : bool) (tout : bool) : M unit :=
+Fixpoint write_loop (fuel : nat) (me : tid) (ep : N) (top : bool) (tout : bool) : M unit :=
   match fuel with
   | O => emit OOutOfFuel
   | S f =>
     s <- getst ;;
-    if top && negb (match state s with Connected => true | _ => false end) then finish me
+    if top && negb (match state s with Connected => N.eqb (qepoch s) ep | _ => false end) then finish me
+    else if negb (N.eqb (qepoch s) ep) then finish me       (* woken by the time-out on a queue nobody writes to any more *)
     else
       match queue s with
       | [] =>
         if tout then finish me
-        else (t <- new_timer (poll_timeout s) ;; modst (set_getter (Some me)) ;;; block me (TWGet t))
+        else (t <- new_timer (poll_timeout s) ;; modst (set_getter (Some me)) ;;; block me (TWGet t ep))
       | QEnd :: r => modst (set_queue r) ;;; finish me
       | QP p :: r =>
         let '(batch, rest) := take_batch (pred BATCH) r [p] in
@@ -305,19 +313,19 @@ Fixpoint write_loop (fuel : nat) (me : tid) (top : bool) (tout : bool) : M unit 
         match transport s with
         | Some TrWebsocket =>
           match ws s with
-          | Some c => ok <- ws_send_all c batch ;; if ok then write_loop f me true false else finish me
+          | Some c => ok <- ws_send_all c batch ;; if ok then write_loop f me ep true false else finish me
           | None => finish me
           end
         | _ =>
-          h <- http_request me KindPost batch ;; t <- new_timer (cc_request_timeout cfg) ;; block me (TWPost h t (length batch))
+          h <- http_request me KindPost batch ;; t <- new_timer (cc_request_timeout cfg) ;; block me (TWPost h t (length batch) ep)
         end
       end
   end.
-Definition write_post_reply (me : tid) (tout : bool) (h : hid) : M unit :=
+Definition write_post_reply (me : tid) (ep : N) (tout : bool) (h : hid) : M unit :=
   r <- http_take h ;;
   match (if tout then Some HFail else r) with
   | None => ret tt
-  | Some (HOk _) | Some HGarbage => s <- getst ;; write_loop (S (S (length (queue s)))) me true false
+  | Some (HOk _) | Some HGarbage => s <- getst ;; write_loop (S (S (length (queue s)))) me ep true false
   | Some HStatus => finish me ;;; modst (set_write None)
   | Some HFail => finish me
   end.
@@ -406,7 +414,7 @@ Definition run_api (me : tid) (call : N) (x : api) : M unit :=
     s <- getst ;;
     match state s with
     | Disconnected =>
-      modst (fun s => set_queue [] (set_getter None (set_transports trs s))) ;;;
+      modst (fun s => bump_epoch (set_queue [] (set_getter None (set_transports trs s)))) ;;;
       match trs with
       | TrWebsocket :: _ => ws_connect me call false
       | _ => h <- http_request me KindOpen [] ;; t <- new_timer (cc_request_timeout cfg) ;; block me (TCOpenGet call h t trs)
@@ -438,9 +446,9 @@ Definition run_task (me : tid) (e : tentry) : M unit :=
     if t_tout e then (q_put QEnd ;;; read_epilogue me)
     else (w <- gws c ;; read_ws_loop (S (S (length (w_inbox w)))) me c false)
   | TRJoinW => read_epilogue me
-  | TWriteStart => s <- getst ;; write_loop (S (S (length (queue s)))) me true false
-  | TWGet _ => modst (set_getter None) ;;; s <- getst ;; write_loop (S (S (length (queue s)))) me false (t_tout e)
-  | TWPost h _ _ => write_post_reply me (t_tout e) h
+  | TWriteStart => s <- getst ;; write_loop (S (S (length (queue s)))) me (qepoch s) true false
+  | TWGet _ ep => s <- getst ;; (if N.eqb (qepoch s) ep then modst (set_getter None) else ret tt) ;;; write_loop (S (S (length (queue s)))) me ep false (t_tout e)
+  | TWPost h _ _ ep => write_post_reply me ep (t_tout e) h
   | TDJoin k =>
     s <- getst ;;
     a <- (match read_task s with Some r => alive r | None => ret false end) ;;
@@ -477,7 +485,7 @@ Fixpoint settle (fuel : nat) : M unit :=
 
 Definition timer_of (k : task) : option timer :=
   match k with
-  | TCOpenGet _ _ t _ | TCWsConn _ _ _ t | TRGet _ t | TRWs _ t | TWGet t | TWPost _ t _ => Some t
+  | TCOpenGet _ _ t _ | TCWsConn _ _ _ t | TRGet _ t | TRWs _ t | TWGet t _ | TWPost _ t _ _ => Some t
   | TCProbe _ _ t | TCOpenRecv _ _ t => t
   | _ => None
   end.
@@ -557,7 +565,7 @@ End WithCfg.
 Definition init : st :=
   {| now := 0; tseq := 0%N; ntid := 0%N; nhid := 0%N; ncid := 0%N; state := Disconnected; sid_set := false; transport := None;
      queue := []; getter := None; interval := 0; ptimeout := 0; upgrades_ws := false; transports := []; ws := None; read_task := None;
-     write_task := None; conns := []; https := []; wsconn_result := []; tasks := []; runq := [] |}.
+     write_task := None; conns := []; https := []; wsconn_result := []; tasks := []; runq := []; qepoch := 0%N |}.
 
 Fixpoint run_ops (cfg : ccfg) (ops : list op) (s : st) : st * list (list out) :=
   match ops with
